@@ -192,6 +192,16 @@ CONFIG_API = [
 ]
 
 
+# the plain data types handed to the user: a constructor stores exactly what it is given (seed C09l: `MatchExt::new` "normalised"
+# the end position on the way)
+DATA_API = [
+    (r"match_type::MatchExt::new$", ("token_type", "span", "start_position", "end_position"), {"token_type": "token_type", "span": "span", "start_position": "start_position", "end_position": "end_position"}, {}),
+    (r"match_type::Match::new$", ("token_type", "span"), {"token_type": "token_type", "span": "span"}, {}),
+    (r"span::Span::new$", ("start", "end"), {"start": "start", "end": "end"}, {}),
+    (r"position::Position::new$", ("line", "column"), {"line": "line", "column": "column"}, {}),
+]
+
+
 def _plain(t):
     s_ = re.sub(r"[&*()]", "", S.fstr(t))
     # a field taken from `..Default::default()`: the only defaulted field of the configuration records is the Option
@@ -213,24 +223,29 @@ def _record(t, names):
     return None
 
 
-def config_api_rules(ctx, rule):
+def data_api_rules(ctx, rule):
+    """Match / MatchExt / Span / Position constructors are plumbing: every return path returns the record of the arguments."""
+    config_api_rules(ctx, rule, table=DATA_API, tag="data-api")
+
+
+def config_api_rules(ctx, rule, table=None, tag="config-api"):
     """The configuration types are plain records: a constructor stores its arguments, `with_lookahead` adds the lookahead and
     keeps the rest, `set_token_type` writes that one field, a getter returns its field.  (A setter that rebuilds the value
     with `..Default::default()` silently drops the lookahead: the scanner is then compiled from another configuration than
     the one the user wrote.)"""
     from .common import cond_variant
     F = ctx.facts
-    for rx, names, want_ret, want_writes in CONFIG_API:
+    for rx, names, want_ret, want_writes in (table or CONFIG_API):
         fn = F.fn(rx)
         ctx.analysed_fn(fn)
         ex, paths = run_fn(fn, F, Model())
         short = M.short_name(fn.name)
         rp = ret_paths(paths)
-        ctx.ob(rule, "config-api:%s:returns" % short, len(rp) >= 1 and len(rp) == len(paths), "%d of %d paths return" % (len(rp), len(paths)), fn.loc())
+        ctx.ob(rule, "%s:%s:returns" % (tag, short), len(rp) >= 1 and len(rp) == len(paths), "%d of %d paths return" % (len(rp), len(paths)), fn.loc())
         for p in rp:
             if isinstance(want_ret, dict):
                 got = _record(p.end[1], names)
-                ctx.ob(rule, "config-api:%s:result" % short, got == want_ret, "returns %s" % S.fstr(p.end[1])[:100], fn.loc())
+                ctx.ob(rule, "%s:%s:result" % (tag, short), got == want_ret, "returns %s" % S.fstr(p.end[1])[:100], fn.loc())
             elif want_ret is not None:
                 got = _plain(p.end[1])
                 ok = got == want_ret
@@ -239,7 +254,7 @@ def config_api_rules(ctx, rule):
                     est = [cond_variant(c_, o_) for c_, o_ in p.conds]
                     est = [cv_[1] for cv_ in est if cv_ is not None and _plain(cv_[0]) == "self.lookahead"]
                     ok = (got == "Someself.lookahead.Some.0" and est[-1:] == ["Some"]) or (got == "None" and est[-1:] == ["None"])
-                ctx.ob(rule, "config-api:%s:result" % short, ok, "returns %s" % S.fstr(p.end[1])[:100], fn.loc())
+                ctx.ob(rule, "%s:%s:result" % (tag, short), ok, "returns %s" % S.fstr(p.end[1])[:100], fn.loc())
             ws = {}
             whole = []
             for e in p.events:
@@ -305,6 +320,14 @@ def compiled_mode_rules(ctx, rule="C06.h"):
             ctx.ob(rule, "ScannerMode::new-keeps-the-given-transitions", False, "returns %s" % S.fstr(r)[:100], nw.loc())
             continue
         nret += 1
+        # the name is stored as given (a trimmed / normalised name is another name: mode_name(), the DOT file names and the
+        # equality of configurations all read it)
+        nm_ = r[3][0]
+        n_ = 0
+        while nm_[0] == "app" and len(nm_[2]) == 1 and re.search(r"(^|::|>)(to_owned|to_string|into|from|clone)$|String as std::convert::From<&str>>::from$", str(nm_[1])) and n_ < 4:
+            nm_ = nm_[2][0]        # (`name.to_owned()`, `String::from(name)`, `name.into()`: owned copies of the same text)
+            n_ += 1
+        ctx.ob(rule, "ScannerMode::new-stores-the-given-name", _plain(nm_) == "name", "name := %s" % S.fstr(r[3][0])[:80], nw.loc())
         for what, v, param, ty in (("patterns", r[3][1], "patterns", r"pattern::Pattern"), ("transitions", r[3][2], "mode_transitions", r"TerminalID, internal::ids::ScannerModeID")):
             lf = list_fill(ex, paths, nw, v, ty)
             if lf is None:
@@ -465,6 +488,10 @@ def mode_switch_rules(ctx):
 
 
 def check(ctx):
+    # the mode rules are stated for the implementation: the public iterator forwards next / peek_n / set_mode to it as they are
+    # and keeps no state of its own (C10.a; seed C06l: a peeked-token cache in the wrapper that forgot the switch)
+    from . import cursor as _cur
+    _cur.analyze(ctx, {"C10.a"})
     from .common import compiled_scanner_is_frozen
     compiled_scanner_is_frozen(ctx, "C02.m")   # nothing edits a compiled scanner after the pipeline produced it (closed writer sets)
     F = ctx.facts
